@@ -546,9 +546,9 @@ def gen_many_ranges(rng, count, prefix):
     capacities swept around the exact size of the frame cut after m ranges, m = 60 .. all"""
     cases = []
     for i in range(count):
-        R = rng.choice([62, 63, 64, 65, 66, 67, 70])
+        R = rng.choice([62, 63, 64, 64, 64, 65, 65, 66, 67, 70])
         pns = []
-        x = rng.choice([0, 1, 5, 100, 16000])
+        x = rng.choice([0, 0, 0, 1, 5, 100, 16000])      # 0: the oldest range ends at the start of the journal (no gap below it)
         for _ in range(R + 1):
             ln = rng.choice([1, 1, 2, 3])
             pns += list(range(x, x + ln))
@@ -561,6 +561,8 @@ def gen_many_ranges(rng, count, prefix):
             caps |= {sz - 1, sz, sz + 1}
         caps = sorted(caps)
         rng.shuffle(caps)
+        fs = full_size(largest, 0, runs)
+        caps = [fs - 1, fs, fs + 1] + [c for c in caps if c not in (fs - 1, fs, fs + 1)]     # the complete frame, exactly
         ops = [(T_RCVD, [p, 1, 10]) for p in pns]
         for j, cap in enumerate(caps[:8]):
             ops += [(T_RDUMP, []), (T_GENACK, [j + 1, largest, 0, cap])]
